@@ -215,6 +215,13 @@ func (l *ledger) onServeExit(n *simNode) {
 		r := n.r
 		if _, ok := r.configs.Committed.Nodes[r.nid]; ok {
 			l.violate("removed", "shutdown-before-removal-committed", fmt.Sprintf("node %d returned ErrNodeRemoved but its committed config %s still contains it", n.id, canonConfig(r.configs.Committed)))
+		} else if _, ok := r.configs.Latest.Nodes[r.nid]; !ok {
+			// the configuration that drops the node must really be committed: covered by
+			// the node's commit index and known as committed to the ledger
+			k := r.configs.Latest.Index
+			if r.commitIndex < k {
+				l.violate("removed", "shutdown-before-removal-committed", fmt.Sprintf("node %d returned ErrNodeRemoved on config %d {%s} but its commit index is only %d", n.id, k, canonConfig(r.configs.Latest), r.commitIndex))
+			}
 		}
 		return
 	}
@@ -812,6 +819,9 @@ func (l *ledger) checkInfo(n *simNode) {
 	if cur.snapIdx > r.lastLogIndex {
 		l.violate("info", "snapshot-beyond-log", fmt.Sprintf("node %d: snapshot index %d > last log index %d", n.id, cur.snapIdx, r.lastLogIndex))
 	}
+	if r.configs.IsCommitted() && r.configs.Committed.Index > r.commitIndex && r.configs.Committed.Index > 1 {
+		l.violate("info", "config-marked-committed-beyond-commit-index", fmt.Sprintf("node %d treats config %d as committed but its commit index is %d", n.id, r.configs.Committed.Index, r.commitIndex))
+	}
 	if r.configs.Committed.Index > r.configs.Latest.Index {
 		l.violate("info", "committed-config-newer-than-latest", fmt.Sprintf("node %d: committed config %d > latest %d", n.id, r.configs.Committed.Index, r.configs.Latest.Index))
 	}
@@ -1028,11 +1038,11 @@ func (l *ledger) checkTransfer() {
 			continue
 		}
 		n := w.nodes[st.node]
-		if n.inc != st.inc || !n.up {
+		if n.inc != st.inc || n.r == nil {
 			continue
 		}
-		r := n.r
-		if r.state == Leader || r.term <= st.termAtInvoke {
+		r := n.r // (also of a node that has shut down meanwhile: its fields are what it last had)
+		if (n.up && r.state == Leader) || r.term <= st.termAtInvoke {
 			l.violate("transfer", "success-without-stepdown", fmt.Sprintf("TransferLeadership on node %d (term %d at request) returned success but the node is %v in term %d", n.id, st.termAtInvoke, r.state, r.term))
 		}
 	}
